@@ -408,20 +408,26 @@ def run(ctx):
     ctx.floor("create_sites", 1, "instance creation call")
     for i in reg:
         g = fi.guards(i)
-        ctx.check(has_fact(g, False, "this->runnable_rulesets_.contains(%s)" % KEY) or
-                  any(p is True and "runnable_rulesets_.end()" in k and "find(%s)" % KEY in k for k, p in g),
+        M_ = "this->runnable_rulesets_"
+        absent_ = has_fact(g, False, "%s.contains(%s)" % (M_, KEY)) or any(p is True and "runnable_rulesets_.end()" in k and "find(%s)" % KEY in k for k, p in g) or \
+            any(isinstance(k, str) and ((k == "%s.count(%s)" % (M_, KEY) and p is False) or
+                                        (k in ("(0 == %s.count(%s))" % (M_, KEY), "(%s.count(%s) == 0)" % (M_, KEY)) and p is True) or
+                                        (k in ("(0 < %s.count(%s))" % (M_, KEY), "(%s.count(%s) > 0)" % (M_, KEY), "(%s.count(%s) != 0)" % (M_, KEY)) and p is False)) for k, p in g)
+        ctx.check(absent_,
                   "create-only-if-absent", "guarded_by", ro.loc(i), "an instance is created only when none exists for that path",
                   "an instance can be (re)created although one exists: its state would be lost", witness_path(ro, fi, i))
         ctx.check(ro.text(ro.nodes[i]["args"][1]) == "cgroup", "create-for-this-cgroup", "provenance", ro.loc(i),
                   "created for the cgroup being visited", "created for " + ro.text(ro.nodes[i]["args"][1]))
     for i in impl:
         # existence: on every path to the run the entry exists (created or contained)
-        fe = iter_flow(ctx, ro, L, {r_: [("set", "created")] for r_ in reg}, split=lambda k: "runnable_rulesets_.contains(" in k or "runnable_rulesets_.find(" in k)
+        fe = iter_flow(ctx, ro, L, {r_: [("set", "created")] for r_ in reg}, split=lambda k: "runnable_rulesets_.contains(" in k or "runnable_rulesets_.find(" in k or "runnable_rulesets_.count(" in k)
         look = [x for x in ro.walk(ro.nodes[i]["recv"]) if ro.nodes[x]["k"] == "call" and ro.nodes[x].get("op") == "[]"
                 and ro.pos_of(x) is not None]
         parts = fe.at(look[0] if look else i) or {}
         ok = bool(parts) and all(("created" in st.must) or any(kk.startswith("C:") and "contains(" in kk and vv is True for kk, vv in dict(val).items())
                                  or any(kk.startswith("C:") and "find(" in kk and vv is False for kk, vv in dict(val).items())
+                                 or any(kk.startswith("C:") and "count(" in kk and ((kk.endswith(")") and not kk.startswith("C:(") and vv is True) or
+                                                                                     (kk.startswith("C:(0 == ") and vv is False)) for kk, vv in dict(val).items())
                                  for val, st in parts.items())
         ctx.check(ok or not reg, "instance-exists-before-run", "must_precede", ro.loc(i), "the entry exists before it is looked up",
                   "operator[] may default-construct a null instance")
